@@ -149,7 +149,7 @@ def int_queries(tier, w, f, t, arith=True, rlim_div=None, dlim=6, bud=90, divdef
         # products by factors >= 2^30 (and every int64 product) are formed in 128 bit by the oracle: cvc5's bit-vector solver first
         small = w <= 32 and max(D['cn'], D['cd'], D['ff'], D['tf']) < (1 << 30)
         bvs = (SAT + ['cvc5']) if small else ['cvc5', 'kissat']
-        add('q_add', SMT + SAT); add('q_sub', SMT + SAT); add('q_common', bvs); add('q_cmp', bvs); add('q_tp_cmp', bvs)
+        add('q_add', SMT + ['z3'] + SAT); add('q_sub', SMT + ['z3'] + SAT); add('q_common', bvs); add('q_cmp', bvs); add('q_tp_cmp', bvs)
         add('q_moddiv', SMT); add('q_moddef', (SAT + SMT) if small else (SMT + SAT))
         if divdef and (w == 32 or (f, t) == ('milli', 'sec')):
             add('q_divdef', SAT)
